@@ -6,17 +6,7 @@
         let (x1, y1) = match pl.k { 0 => (x0, y0), 1 => (-y0, x0), 2 => (-x0, -y0), _ => (y0, -x0) };
         (x1 + pl.lx, y1 + pl.ly)
     }
-    fn any_place(bits: u32) -> Place {
-        let lx: i32 = kani::any();
-        let ly: i32 = kani::any();
-        if bits < 32 {
-            let lim: i32 = 1 << (bits - 1);
-            kani::assume(lx >= -lim && lx < lim && ly >= -lim && ly < lim);
-        }
-        let k: u8 = kani::any();
-        kani::assume(k < 4);
-        Place { lx: lx as isize, ly: ly as isize, refl: kani::any(), k }
-    }
+    /// a symbolic signed value of `bits` bits
     fn any_coord(bits: u32) -> isize {
         let v: i32 = kani::any();
         if bits < 32 {
@@ -25,31 +15,89 @@
         }
         v as isize
     }
-    fn angle_of(pl: Place) -> Option<f64> {
+    fn place(refl: bool, k: u8, bits: u32) -> Place { Place { lx: any_coord(bits), ly: any_coord(bits), refl, k } }
+    fn transform_of(pl: Place, none_for_zero: bool) -> Transform {
         // `None` and `Some(0.0)` both mean "not rotated"
-        if pl.k == 0 && kani::any() { None } else { Some(90.0 * (pl.k as f64)) }
-    }
-    fn transform_of(pl: Place) -> Transform {
-        Transform::from_instance(&Point::new(pl.lx, pl.ly), pl.refl, angle_of(pl))
+        let angle = if pl.k == 0 && none_for_zero { None } else { Some(90.0 * (pl.k as f64)) };
+        Transform::from_instance(&Point::new(pl.lx, pl.ly), pl.refl, angle)
     }
 
-    // ---- contract stubs for libm: right angles only (anything else is outside the domain and FAILS) ----
+    // ---- contract stubs for libm at the four right angles: the values of this machine's libm, confirmed natively by
+    // ---- precheck.rs before every run.  Any other argument is outside the stub's domain and FAILS (assert, not assume).
     const H: f64 = 1.5707963267948966; // 90f64.to_radians()
-    fn quadrant(x: f64) -> u8 {
-        if x == 0.0 { 0 } else if x == H { 1 } else if x == 2.0 * H { 2 } else if x == 3.0 * H { 3 } else { assert!(false, "sin/cos stub called outside its domain"); 0 }
+    fn sin_stub(x: f64) -> f64 {
+        if x == 0.0 { 0.0 } else if x == H { 1.0 } else if x == 2.0 * H { f64::from_bits(0x3ca1a62633145c07) } else if x == 3.0 * H { -1.0 }
+        else { assert!(false, "sin stub called outside its domain"); 0.0 }
     }
-    fn near(exact: f64) -> f64 {
-        let r: f64 = kani::any();
-        kani::assume(r >= exact - 2.5e-16 && r <= exact + 2.5e-16);
-        r
+    fn cos_stub(x: f64) -> f64 {
+        if x == 0.0 { 1.0 } else if x == H { f64::from_bits(0x3c91a62633145c07) } else if x == 2.0 * H { -1.0 } else if x == 3.0 * H { f64::from_bits(0xbcaa79394c9e8a0a) }
+        else { assert!(false, "cos stub called outside its domain"); 0.0 }
     }
-    fn sin_stub(x: f64) -> f64 { match quadrant(x) { 0 => near(0.0), 1 => near(1.0), 2 => near(0.0), _ => near(-1.0) } }
-    fn cos_stub(x: f64) -> f64 { match quadrant(x) { 0 => near(1.0), 1 => near(0.0), 2 => near(-1.0), _ => near(0.0) } }
 
+    fn depth1(refl: bool, k: u8, bits: u32) {
+        let pl = place(refl, k, bits);
+        let (x, y) = (any_coord(bits), any_coord(bits));
+        let e = exact(pl, x, y);
+        // (1) the placement transform is reflect, then rotate ccw, then translate
+        let direct = Point::new(x, y).transform(&transform_of(pl, false));
+        assert!(direct.x == e.0 && direct.y == e.1);
+        if k == 0 {
+            let direct_none = Point::new(x, y).transform(&transform_of(pl, true));
+            assert!(direct_none.x == e.0 && direct_none.y == e.1);
+        }
+        // (2) identical to composing the library's own elementary transforms in that order
+        let r = if refl { Transform::reflect_vert() } else { Transform::identity() };
+        let rot = Transform::rotate(90.0 * (k as f64));
+        let tr = Transform::translate(pl.lx as f64, pl.ly as f64);
+        let composed = Transform::cascade(&tr, &Transform::cascade(&rot, &r));
+        let via = Point::new(x, y).transform(&composed);
+        assert!(via == direct);
+    }
+    fn depth2(refl_o: bool, k_o: u8, bits: u32) {
+        // outer orientation concrete, inner orientation symbolic
+        let outer = place(refl_o, k_o, bits);
+        let ki: u8 = kani::any();
+        kani::assume(ki < 4);
+        let inner = place(kani::any(), ki, bits);
+        let (x, y) = (any_coord(bits), any_coord(bits));
+        let t = Transform::cascade(&transform_of(outer, false), &transform_of(inner, false));
+        let p = Point::new(x, y).transform(&t);
+        let i = exact(inner, x, y);
+        let e = exact(outer, i.0, i.1);
+        assert!(p.x == e.0 && p.y == e.1);
+    }
+    macro_rules! orient {
+        ($name:ident, $f:ident, $refl:expr, $k:expr, $bits:expr) => {
+            #[kani::proof]
+            #[kani::stub(f64::sin, sin_stub)]
+            #[kani::stub(f64::cos, cos_stub)]
+            fn $name() { $f($refl, $k, $bits); }
+        };
+    }
+    orient!(d1_r0_k0_b8, depth1, false, 0, 8);
+    orient!(d1_r0_k1_b8, depth1, false, 1, 8);
+    orient!(d1_r0_k2_b8, depth1, false, 2, 8);
+    orient!(d1_r0_k3_b8, depth1, false, 3, 8);
+    orient!(d1_r1_k0_b8, depth1, true, 0, 8);
+    orient!(d1_r1_k1_b8, depth1, true, 1, 8);
+    orient!(d1_r1_k2_b8, depth1, true, 2, 8);
+    orient!(d1_r1_k3_b8, depth1, true, 3, 8);
+    orient!(d1_r0_k0_b16, depth1, false, 0, 16);
+    orient!(d1_r0_k1_b16, depth1, false, 1, 16);
+    orient!(d1_r0_k2_b16, depth1, false, 2, 16);
+    orient!(d1_r0_k3_b16, depth1, false, 3, 16);
+    orient!(d1_r1_k0_b16, depth1, true, 0, 16);
+    orient!(d1_r1_k1_b16, depth1, true, 1, 16);
+    orient!(d1_r1_k2_b16, depth1, true, 2, 16);
+    orient!(d1_r1_k3_b16, depth1, true, 3, 16);
+    orient!(d2_r0_k1_b5, depth2, false, 1, 5);
+    orient!(d2_r1_k1_b5, depth2, true, 1, 5);
+    orient!(d2_r1_k2_b5, depth2, true, 2, 5);
+    orient!(d2_r0_k3_b5, depth2, false, 3, 5);
+
+    // the elementary transforms alone, full i32 domain where the matrix is exactly 0/1/-1 (no libm involved)
     #[kani::proof]
-    #[kani::stub(f64::sin, sin_stub)]
-    #[kani::stub(f64::cos, cos_stub)]
-    fn elementary_transforms() {
+    fn elementary_exact() {
         let (x, y) = (any_coord(32), any_coord(32));
         let p = Point::new(x, y);
         assert!(p.transform(&Transform::identity()) == p);
@@ -58,73 +106,15 @@
         assert!(t.x == x + dx as isize && t.y == y + dy as isize);
         let r = p.transform(&Transform::reflect_vert());
         assert!(r.x == x && r.y == -y);
-        let k: u8 = kani::any();
-        kani::assume(k < 4);
-        let q = p.transform(&Transform::rotate(90.0 * (k as f64)));
-        let e = exact(Place { lx: 0, ly: 0, refl: false, k }, x, y);
-        assert!(q.x == e.0 && q.y == e.1);
     }
 
-    #[kani::proof]
-    #[kani::stub(f64::sin, sin_stub)]
-    #[kani::stub(f64::cos, cos_stub)]
-    fn from_instance_exact_depth1() {
-        let pl = any_place(32);
-        let (x, y) = (any_coord(32), any_coord(32));
-        let p = Point::new(x, y).transform(&transform_of(pl));
-        let e = exact(pl, x, y);
-        assert!(p.x == e.0 && p.y == e.1);
-    }
-
-    #[kani::proof]
-    #[kani::stub(f64::sin, sin_stub)]
-    #[kani::stub(f64::cos, cos_stub)]
-    fn from_instance_equals_cascade() {
-        // identical to composing the library's own elementary transforms: reflect, then rotate, then translate
-        let pl = any_place(32);
-        let (x, y) = (any_coord(32), any_coord(32));
-        let direct = Point::new(x, y).transform(&transform_of(pl));
-        let refl = if pl.refl { Transform::reflect_vert() } else { Transform::identity() };
-        let rot = Transform::rotate(90.0 * (pl.k as f64));
-        let tr = Transform::translate(pl.lx as f64, pl.ly as f64);
-        let composed = Transform::cascade(&tr, &Transform::cascade(&rot, &refl));
-        let via = Point::new(x, y).transform(&composed);
-        assert!(direct == via);
-    }
-
-    #[kani::proof]
-    #[kani::stub(f64::sin, sin_stub)]
-    #[kani::stub(f64::cos, cos_stub)]
-    fn cascade_depth2() {
-        let (outer, inner) = (any_place(24), any_place(24));
-        let (x, y) = (any_coord(24), any_coord(24));
-        let t = Transform::cascade(&transform_of(outer), &transform_of(inner));
-        let p = Point::new(x, y).transform(&t);
-        let i = exact(inner, x, y);
-        let e = exact(outer, i.0, i.1);
-        assert!(p.x == e.0 && p.y == e.1);
-    }
-
-    #[kani::proof]
-    #[kani::stub(f64::sin, sin_stub)]
-    #[kani::stub(f64::cos, cos_stub)]
-    fn cascade_depth3() {
-        let (a, b, c) = (any_place(16), any_place(16), any_place(16));
-        let (x, y) = (any_coord(16), any_coord(16));
-        let t = Transform::cascade(&transform_of(a), &Transform::cascade(&transform_of(b), &transform_of(c)));
-        let p = Point::new(x, y).transform(&t);
-        let i = exact(c, x, y);
-        let j = exact(b, i.0, i.1);
-        let e = exact(a, j.0, j.1);
-        assert!(p.x == e.0 && p.y == e.1);
-    }
-
+    // vacuity canary: MUST fail
     #[kani::proof]
     #[kani::stub(f64::sin, sin_stub)]
     #[kani::stub(f64::cos, cos_stub)]
     fn canary_transform_reachable() {
-        let pl = any_place(32);
-        let (x, y) = (any_coord(32), any_coord(32));
-        let p = Point::new(x, y).transform(&transform_of(pl));
+        let pl = place(true, 1, 8);
+        let (x, y) = (any_coord(8), any_coord(8));
+        let p = Point::new(x, y).transform(&transform_of(pl, false));
         assert!(p.x == x);
     }
